@@ -849,7 +849,7 @@ class H2Stream:
         # we need to scan the header block to see if this is an informational
         # response.
         input_ = StreamInputs.SEND_HEADERS
-        if ((not self.state_machine.client) and
+        if (self.state_machine.client is False and
                 is_informational_response(headers)):
             if end_stream:
                 raise ProtocolError(
